@@ -96,6 +96,8 @@ def run(prog, rep, tier):
                         rv = s.get("rv")
                         if rv and rv["r"] == "agg" and rv.get("v") == "ResetQuery":
                             ok_send = True
+                        if rv and rv["r"] == "use" and (rv["o"].get("k") or {}).get("variant") == "ResetQuery":
+                            ok_send = True        # `&Message::ResetQuery` is a promoted constant
                         if "rv" in s and (s["p"].get("p") and any(isinstance(e, dict) and e.get("n") == "end_of_data" for e in s["p"]["p"]) or fv.local_name.get(s["p"]["l"]) == "end_of_data"):
                             if rv["r"] == "use" and rv["o"].get("k", {}).get("v") == 0:
                                 ok_phase = True
